@@ -4,6 +4,7 @@ CONSTANTS
   Grams = {1, 2}
   Audios = {"a1", "a2"}
   Deviations <- NoDev
+  Throttling <- Thr
   MaxOps = 9
 INVARIANT FunctionalDependency
 CHECK_DEADLOCK FALSE
